@@ -28,6 +28,12 @@ pointed at the copy's sub-directories, so -DTLA-Library resolves every EXTENDS t
   NOT DETECTED      TLC passed: the invariants are vacuous for this change, or the mutation is equivalent
   ERROR             TLC evaluation error / time-out / stale pattern
 Exit 1 if any mutant is not as expected. -j N runs N mutants at a time (each in its own process and copy).
+
+The default glob `*` takes the files directly in /verif/spec_mutants.  /verif/spec_mutants/suspects/ holds
+mutations that TLC does NOT detect and that are not equivalent (blind spots of M1, each with its analysis in
+the file's comment); `expect` names the invariant one would hope for, so
+    /venv/bin/python harness/specmut.py 'suspects/*'
+prints NOT DETECTED for each and exits 1 until the specification is strengthened.
 """
 import concurrent.futures
 import glob
